@@ -630,6 +630,7 @@ pub fn run_c20e(ctx: &mut Ctx, from: u64, to: u64) {
 
 // ------------------------------------------------------------------------------------------ C11 (train binary)
 
+#[cfg(feature = "train")]
 pub fn run_c11cli(ctx: &mut Ctx, from: u64, to: u64) {
     for k in from..to {
         ctx.begin_case(k);
